@@ -240,25 +240,35 @@ def tracing(imf_opts, scale0):
 _REAL_GNI = None
 _FLAG_FILE = None
 _SCALE0 = 1.0
+_PARENT = None
 
 
 def _gni_traced(X, **kw):
-    with tracing(kw, _SCALE0) as tr:
-        out = _REAL_GNI(X, **kw)
-    line = '%d %d %s\n' % (1 if tr.iterated else 0, tr.nevals, ' | '.join(tr.near))
-    with open(_FLAG_FILE, 'a') as f:
-        f.write(line)
+    tr = None
+    try:
+        with tracing(kw, _SCALE0) as tr:
+            out = _REAL_GNI(X, **kw)
+        if os.getpid() == _PARENT:
+            # not a pool member: this is get_mask_freqs computing the first IMF whose zero crossings (np.sign) set the mask frequency
+            v = np.abs(np.asarray(out[0], dtype=float)).ravel()
+            if v.size and np.any((v > 0) & (v <= TIE_REL * float(v.max()))):
+                tr.near.append('a sample of the IMF whose zero crossings set the mask frequency is within %g (relative) of zero' % TIE_REL)
+    finally:
+        # also when the extraction raises: the evidence gathered so far must reach the parent
+        if tr is not None:
+            with open(_FLAG_FILE, 'a') as f:
+                f.write('%d %d %s\n' % (1 if tr.iterated else 0, tr.nevals, ' | '.join(tr.near)))
     return out
 
 
 @contextlib.contextmanager
 def mask_tracing(scale0):
-    global _REAL_GNI, _FLAG_FILE, _SCALE0
+    global _REAL_GNI, _FLAG_FILE, _SCALE0, _PARENT
     from emd import sift
     tr = _Trace()
     fd, path = tempfile.mkstemp(prefix='c02-', dir=os.path.join(common.VERIF, '.work'))
     os.close(fd)
-    _REAL_GNI, _FLAG_FILE, _SCALE0 = sift.get_next_imf, path, scale0
+    _REAL_GNI, _FLAG_FILE, _SCALE0, _PARENT = sift.get_next_imf, path, scale0, os.getpid()
     sift.get_next_imf = _gni_traced
     try:
         yield tr
@@ -469,7 +479,8 @@ def run(ctx):
                 'option): get_next_imf and sift under c = +-2^k, |k| <= 8 (np.array_equal, sift_thresh*|c|), under arbitrary non-zero reals and '
                 'under time reversal (1e-9*scale); mask_sift ratio_sig/ratio_imf x nphases {1,2,3,4,8} under c > 0 and, for even nphases, c < 0. '
                 'guard band: a case is discarded when a recorded stop metric / per-sample Rilling metric / energy ratio / component abs-sum '
-                'lies within 1e-6 relative of its threshold or two neighbouring samples of an iterate differ by less than 1e-9 relative '
+                'lies within 1e-6 relative of its threshold, two neighbouring samples of an iterate differ by less than 1e-9 relative, or (mask_freqs=zc) '
+                'a sample of the IMF whose sign changes set the mask frequency is within 1e-9 relative of zero '
                 '(exact +-2^k comparisons need no guard).  masked sift with c < 0 and odd nphases is reported under the known-finding site.  '
                 'non-trivial = at least one sifting iteration was completed')
     ctx.notes.append('ORACLE CONTRACTS (trusted, validated numerically here): interpolant homogeneous of degree one in the magnitudes and symmetric '
